@@ -7,7 +7,7 @@ On success the seed is stored as /verif/seeded/<name>/ {patch.diff, demo.rs, met
 usage: tools/verify_seed.py /tmp/seeds/C20-1 [name]"""
 import json, os, re, shutil, subprocess, sys
 REPO = "/repo"
-WT = "/tmp/wt-verify"
+WT = os.environ.get("VERIFY_WT", "/tmp/wt-verify")
 VERIF = os.path.dirname(os.path.dirname(os.path.abspath(__file__)))
 
 def sh(cmd, **kw):
